@@ -312,6 +312,38 @@ var c14Templates = []sim.Template{
 	}},
 }
 
+// c14ParamsProfile: identity 0 logs in normally; identity 1 then starts with ?uid=<identity 0's uid>&email=…&name=…
+// and comes back with a fully valid callback of its own.
+var c14ParamsProfile = &sim.Profile{
+	W:      map[string]int{"oauth_start": 30, "oauth_cb": 45, "logout": 10, "visit": 10},
+	Cls:    map[string]map[string]int{"oauth_cb": {"own": 90, "spent": 10}, "oauth_cb2": {"validcode": 100}},
+	MinLen: 10, MaxLen: 20, TplProb: 1,
+	Templates: []sim.Template{{Name: "start-parameters-named-like-provider-fields", F: func(s *sim.Sim) []*sim.Action {
+		if len(s.Cfg.Providers) == 0 || len(s.Idents) < 2 {
+			return nil
+		}
+		p := s.Cfg.Providers[s.R.Intn(len(s.Cfg.Providers))]
+		var ids []world.Identity
+		for _, id := range s.Idents {
+			if id.Provider == p {
+				ids = append(ids, id)
+			}
+		}
+		if len(ids) < 2 {
+			return nil
+		}
+		cb := func(b, ident int) *sim.Action {
+			a := act("oauth_cb", b, ident, "own", "provider", p)
+			a.Cls2 = "validcode"
+			return a
+		}
+		x := "uid=" + ids[0].UID + "&email=" + ids[0].Email + "&name=Somebody+Else&invite=abc"
+		return []*sim.Action{act("oauth_start", 0, -9, "", "provider", p), cb(0, 0), act("logout", 0, -9, ""),
+			act("oauth_start", 1, -9, "", "provider", p, "extraq", x), cb(1, 1), act("visit", 1, -9, "", "route", "/protected/bare"),
+			act("oauth_start", 2, -9, "", "provider", p, "extraq", "oauth2uid="+ids[0].UID+"&oauth2_uid="+ids[0].UID+"&pid=x"), cb(2, 1), act("visit", 2, -9, "", "route", "/protected/bare")}
+	}}},
+}
+
 var c14Profile = &sim.Profile{
 	W: map[string]int{"oauth_start": 30, "oauth_cb": 45, "logout": 5, "dropsid": 3, "visit": 5, "login": 4, "raw": 2, "advance": 1, "steal": 2},
 	Cls: map[string]map[string]int{
@@ -325,7 +357,7 @@ var c14Profile = &sim.Profile{
 func init() {
 	register(&Check{
 		ID: "C14", Level: "exploration",
-		Rule:  "interleaved OAuth2 starts and callbacks over 3 browsers x 2 providers; state strings: the session's own, empty, prefix, extended, case-flipped, another browser's, spent, garbage; codes: valid, bogus, minted by the other provider, provider error; provider-reported uids from a hostile corpus (';', ';;', 'oauth2;;alpha;;x', NUL, non-ASCII, 4 KB, blank). The fake provider's tables are the ground truth of which identity was reported. Oracle: a callback touches users or sets uid only if its state equals the value issued to THIS browser by a start request and not yet matched; a matching callback leaves no state behind; on success uid == Make(provider-of-callback, reported uid) and the stored user carries that pair; provider errors and failed exchanges log nobody in. Plus the library's own Google/Facebook FindUserDetails functions against a 'me' endpoint reporting ids as strings and as bare JSON numbers (incl. neighbours beyond 2^53): what is not refused is exactly the reported id; after every complete answer three partial ones (the provider's JSON error document, a name-only and an id-only profile): absent members come out absent, never as the previous answer's. Plus a codec sweep: generated (provider,uid) pairs (provider from [a-z0-9_-]+) never collide and Parse(Make()) never yields a different pair. distinct_nontrivial = distinct (state class, code class, session state, uid class, error-handler kind, uid outcome, diff size) signatures.",
+		Rule:  "interleaved OAuth2 starts and callbacks over 3 browsers x 2 providers; state strings: the session's own, empty, prefix, extended, case-flipped, another browser's, spent, garbage; codes: valid, bogus, minted by the other provider, provider error; provider-reported uids from a hostile corpus (';', ';;', 'oauth2;;alpha;;x', NUL, non-ASCII, 4 KB, blank). The fake provider's tables are the ground truth of which identity was reported. Oracle: a callback touches users or sets uid only if its state equals the value issued to THIS browser by a start request and not yet matched; a matching callback leaves no state behind; on success uid == Make(provider-of-callback, reported uid) and the stored user carries that pair; provider errors and failed exchanges log nobody in. Plus the library's own Google/Facebook FindUserDetails functions against a 'me' endpoint reporting ids as strings and as bare JSON numbers (incl. neighbours beyond 2^53): what is not refused is exactly the reported id; after every complete answer three partial ones (the provider's JSON error document, a name-only and an id-only profile): absent members come out absent, never as the previous answer's. Plus a codec sweep: generated (provider,uid) pairs (provider from [a-z0-9_-]+) never collide and Parse(Make()) never yields a different pair. Odd units run a second, directed history in which a start request carries pass-along parameters named uid / email / name of ANOTHER identity before an own valid callback. distinct_nontrivial = distinct (state class, code class, session state, uid class, error-handler kind, uid outcome, diff size) signatures.",
 		Units: func(t string) int { return tierN(t, 640, 30000) },
 		Run: func(c *RunCtx, unit int) {
 			r := Rng(c.Seed, "C14", unit)
@@ -341,6 +373,16 @@ func init() {
 				return
 			}
 			sim.RunHistory(s, c14Profile, []sim.Monitor{c14mon{c.Stats}}, c.Stats, unit)
+			if unit%2 == 1 && len(c.Stats.Violations) == 0 {
+				// a second, directed history (generator of its own): start requests that carry pass-along parameters
+				// named like the provider's own answer fields
+				r2 := Rng(c.Seed, "C14-start-params", unit)
+				cfg2 := randomCfg(r2, "oauth2", "logout")
+				cfg2.TwoFA = nil
+				if s2, err := sim.New(cfg2, r2, sim.SeedOpt{Accounts: 2, Browsers: 3}); err == nil {
+					sim.RunHistory(s2, c14ParamsProfile, []sim.Monitor{c14mon{c.Stats}}, c.Stats, unit)
+				}
+			}
 		},
 		Floors: func(t string) map[string]int {
 			return map[string]int{"details:partial-answer-accepted": 100, "login-ok": 300, "state-spent": 300, "provider-error": 30, "exchange-failed": 30, "callback-without-own-unused-state:spent": 50, "callback-without-own-unused-state:otherbrowser": 50, "codec:roundtrip": 1000}
